@@ -59,6 +59,7 @@ class AnnotateModel:
         self.f = repo.need_func("annotate.annotate_citations")
         self.bind_errors: List[str] = []
         self._bind()
+        self.wrap_cover = (False, "wrap helper not analysed")
         self.wrap_ok, self.wrap_why, self.wrap_fn = self._wrap_summary()
         self.bal_ok, self.bal_why, self.bal_fn = self._balance_summary()
         self.paths: List[PathRec] = []
@@ -173,6 +174,17 @@ class AnnotateModel:
         inner = items[0][1][3]
         if any(str(op) in ("SUBPATTERN", "GROUPREF", "ASSERT", "ASSERT_NOT", "AT") for op, _ in _flatten(inner)):
             return False, "nested groups / assertions inside the pattern", fn
+        # every tag token must be matched: a tag the pattern does not recognise stays inside the annotation and is crossed by it
+        try:
+            from . import rx as _rx
+
+            tags = _rx.build_nfa(r"</?[A-Za-z_:][^<>]*>", 0)
+            mine = _rx.build_nfa(pat.value, 0)
+            w = _rx.find_not_included(tags, mine, list("<>/aA1-_:. =\"'\n\t") + ["\u00e9"])
+            self.wrap_cover = (w is None, f"the tag pattern {pat.value!r} matches every tag token </?name ...>" if w is None else
+                               f"the tag pattern {pat.value!r} does not match the tag {w!r}: such a tag is left inside the annotation and crossed by it")
+        except Exception as e:  # noqa: BLE001
+            self.wrap_cover = (False, f"tag pattern {pat.value!r} cannot be analysed: {e}")
         # replacement
         others = set(params[1:])
         if isinstance(repl, ast.Lambda):
